@@ -8,7 +8,7 @@ import typing
 
 from .._backends.sync import SyncBackend
 from .._backends.base import SOCKET_OPTION, NetworkBackend, NetworkStream
-from .._exceptions import ConnectError, ConnectTimeout
+from .._exceptions import ConnectError, ConnectionNotAvailable, ConnectTimeout
 from .._models import Origin, Request, Response
 from .._ssl import default_ssl_context
 from .._synchronization import Lock, ShieldCancellation
@@ -72,9 +72,14 @@ class HTTPConnection(ConnectionInterface):
                 f"Attempted to send request to {request.url.origin} on connection to {self._origin}"
             )
 
-        try:
-            with self._request_lock:
-                if self._connection is None:
+        with self._request_lock:
+            if self._connection is None:
+                if self._connect_failed:
+                    # The request that was establishing the connection failed
+                    # while we were waiting for it, and the pool has dropped it.
+                    raise ConnectionNotAvailable()
+
+                try:
                     stream = self._connect(request)
 
                     ssl_object = stream.get_extra_info("ssl_object")
@@ -96,9 +101,12 @@ class HTTPConnection(ConnectionInterface):
                             stream=stream,
                             keepalive_expiry=self._keepalive_expiry,
                         )
-        except BaseException as exc:
-            self._connect_failed = True
-            raise exc
+                except BaseException as exc:
+                    # Only the request that is establishing the connection marks
+                    # it as failed: one that is cancelled while it waits for the
+                    # lock must not take the connection away from the others.
+                    self._connect_failed = True
+                    raise exc
 
         return self._connection.handle_request(request)
 
